@@ -54,7 +54,7 @@ func (f *c08FaultStore) Capabilities() partstore.Capabilities {
 	return partstore.CapabilitiesOf(f.PartStore)
 }
 
-func dec(a *atomic.Int32) bool {
+func c08Dec(a *atomic.Int32) bool {
 	for {
 		v := a.Load()
 		if v <= 0 {
@@ -67,11 +67,11 @@ func dec(a *atomic.Int32) bool {
 }
 
 func (f *c08FaultStore) PutPart(ctx context.Context, tx database.Tx, id partstore.PartId, r io.Reader) error {
-	if dec(&f.failPutBefore) {
+	if c08Dec(&f.failPutBefore) {
 		return errC08Injected
 	}
 	err := f.PartStore.PutPart(ctx, tx, id, r)
-	if err == nil && dec(&f.failPutAfter) {
+	if err == nil && c08Dec(&f.failPutAfter) {
 		return errC08Injected
 	}
 	return err
@@ -79,13 +79,13 @@ func (f *c08FaultStore) PutPart(ctx context.Context, tx database.Tx, id partstor
 
 func (f *c08FaultStore) DeletePart(ctx context.Context, tx database.Tx, id partstore.PartId) error {
 	if tx == nil {
-		if dec(&f.failDelNoTx) {
+		if c08Dec(&f.failDelNoTx) {
 			f.mu.Lock()
 			f.failedNoTx = append(f.failedNoTx, id)
 			f.mu.Unlock()
 			return errC08Injected
 		}
-	} else if dec(&f.failDelTx) {
+	} else if c08Dec(&f.failDelTx) {
 		return errC08Injected
 	}
 	return f.PartStore.DeletePart(ctx, tx, id)
